@@ -93,7 +93,7 @@ def build(jobs=16):
     if not os.path.exists(mk) or os.path.getmtime(mk) < os.path.getmtime(cp):
         subprocess.run(["coq_makefile", "-f", "_CoqProject", "-o", "Makefile"], cwd=COQ,
                        stdout=subprocess.DEVNULL, stderr=subprocess.DEVNULL)
-    cmd = ["timeout", "1500", "make", "-k", f"-j{jobs}"]
+    cmd = ["timeout", "900", "make", "-k", f"-j{jobs}"]
     res["cmd"] = "coq_makefile -f _CoqProject -o Makefile && " + " ".join(cmd) + "  (in /verif/coq)"
     p = subprocess.run(cmd, cwd=COQ, stdout=subprocess.PIPE, stderr=subprocess.STDOUT, text=True)
     res["log"] = p.stdout[-6000:]
